@@ -11,8 +11,10 @@ Not decided: what the real compiler writes, Make re-reading the fixed file,
 arbitrary edit histories -- the bulk of the property.
 """
 import ast
+import re
 
 from ..consteval import EnumMember, const_eval, enum_members, fold_test
+from ..facts import Facts, direct, has, has_call, has_const, param_of
 from ..index import AnalysisError, unparse, walk_no_nested
 from .. import query as Q
 
@@ -20,16 +22,41 @@ CP = 'bfg9000.builtins.compile:'
 CC = 'bfg9000.tools.cc.compiler:CcBaseCompiler'
 
 
-def _under_gcc_flavor(node):
-    child = node
-    n = getattr(node, '_parent', None)
-    while n is not None:
-        if isinstance(n, ast.If) and "deps_flavor == 'gcc'" in unparse(
-                n.test) and any(child is s for s in n.body):
-            return True
-        child = n
-        n = getattr(n, '_parent', None)
-    return False
+def _facts(ctx):
+    f = getattr(ctx, '_facts', None)
+    if f is None:
+        f = ctx._facts = Facts(ctx.repo)
+    return f
+
+
+def _gcc(F, node, fn):
+    """`node` executes only when <compiler>.deps_flavor == 'gcc'."""
+    return any(op == 'Eq' and (has(l, 'deps_flavor') and has_const(r, 'gcc')
+                               or has(r, 'deps_flavor') and
+                               has_const(l, 'gcc'))
+               for op, l, r in F.guard_compares(node, fn))
+
+
+def _item_stores(F, fn, key):
+    """(node, value atoms) of `<x>[key] = value` stores in fn."""
+    out = []
+    for n in walk_no_nested(fn.node):
+        if isinstance(n, ast.Assign):
+            for t in n.targets:
+                if isinstance(t, ast.Subscript) and F.flow.const_keys(
+                        t.slice, fn) == [key]:
+                    out.append((n, F.atoms(n.value, fn)))
+    return out
+
+
+def _suffixes(atoms):
+    out = set()
+    for a in atoms:
+        if a.startswith("const:'."):
+            out.add(a[7:-1])
+        for m in re.finditer(r"addext\('(\.[A-Za-z0-9]+)'\)", a):
+            out.add(m.group(1))
+    return out
 
 
 def depfile_wiring(ctx):
@@ -40,17 +67,20 @@ def depfile_wiring(ctx):
              'as a target (clean); ninja sets deps=gcc and depfile; one '
              'suffix at all sites; all under the gcc deps flavor')
     repo = ctx.repo
-    call = repo.method(CC, '_call')
-    t = unparse(call.node)
-    ok = any(isinstance(n, ast.If) and unparse(n.test) == 'deps' and
-             "result.extend(['-MMD', '-MF', deps])" in unparse(n)
-             for n in walk_no_nested(call.node))
+    F = _facts(ctx)
+    call = F.fn(CC + '._call')
+    mf = F.consts(call, lambda v: v == '-MF')
+    r = F.returns(call)
+    ok = bool(mf) and all(param_of(F.control(n, call), 'deps') for n in mf) \
+        and has_const(r, '-MF') and has_const(r, '-MMD') and \
+        param_of(r, 'deps')
     ctx.ob(R, 'CcBaseCompiler._call|-MMD -MF deps', ok, call.node,
            'the compiler is not asked to write a depfile when deps is '
            'given')
     # deps_flavor evaluated per concrete cc compiler class and C-family
     # language: must be 'gcc' (so -MMD -MF, depfixer and -include apply to
     # ordinary compilation *and* to precompiled headers)
+    from ..absint import Interp, Undecided
     from ..consteval import UNKNOWN, subst_eval
     base = repo.cls(CC)
     n_eval = 0
@@ -63,206 +93,265 @@ def depfile_wiring(ctx):
             continue
         oo, fl = ci.find_method('deps_flavor')
         rets = Q.returns(fl)
-        Q.require(len(rets) == 1, 'deps_flavor: single return expected')
         for lang in sorted(table):
             if lang not in ('c', 'c++', 'objc', 'objc++'):
                 continue
             n_eval += 1
-            v = subst_eval(repo, oo.module, rets[0].value,
-                           {'self.lang': lang, 'self._langs': table}, oo)
-            ctx.ob(R, 'deps_flavor|{}|{}'.format(ci.name, lang), v == 'gcc',
-                   fl, '{}.deps_flavor evaluates to {!r} for language {} '
+            vals = set()
+            for r in rets:
+                v = subst_eval(repo, oo.module, r.value,
+                               {'self.lang': lang, 'self._langs': table}, oo)
+                # the return is taken only if its guards fold to true
+                taken = True
+                for t, pos in F.guards_pol(r, fl._func):
+                    tv = subst_eval(repo, oo.module, t, {
+                        'self.lang': lang, 'self._langs': table}, oo)
+                    if tv is UNKNOWN:
+                        taken = None
+                        break
+                    if bool(tv) != pos:
+                        taken = False
+                        break
+                if taken is None:
+                    vals.add(UNKNOWN)
+                elif taken:
+                    vals.add(v)
+            ctx.ob(R, 'deps_flavor|{}|{}'.format(ci.name, lang),
+                   vals == {'gcc'}, fl,
+                   '{}.deps_flavor evaluates to {!r} for language {} '
                    '(expected \'gcc\'): no depfile is generated, header '
-                   'changes do not rebuild'.format(ci.name, v, lang))
-    ctx.require_min(R, n_eval, 8, 'deps_flavor evaluations')
-    mk = repo.func(CP + 'make_compile')
-    # (1) deps kwarg
-    a = [n for n in ast.walk(mk.node) if isinstance(n, ast.Assign) and any(
-        unparse(t_) == "cmd_kwargs['deps']" for t_ in n.targets)]
-    ok = len(a) == 1 and _under_gcc_flavor(a[0])
-    ctx.ob(R, 'make_compile|deps-kwarg', ok, mk.node,
-           'make does not pass a depfile name to the compiler')
+                   'changes do not rebuild'.format(ci.name, sorted(
+                       map(repr, vals)), lang))
+    ctx.ob(R, 'deps_flavor|evaluations', n_eval >= 8, base.node,
+           'only {} (compiler class, language) pairs could be '
+           'evaluated'.format(n_eval))
+    mk = F.fn(CP + 'make_compile')
     suffixes = set()
-    if a:
-        for c in ast.walk(a[0].value):
-            if isinstance(c, ast.Constant) and isinstance(c.value, str):
-                suffixes.add(('make-kwarg', c.value))
+    # (1) deps kwarg
+    a = _item_stores(F, mk, 'deps')
+    ok = bool(a) and all(_gcc(F, n, mk) for n, v in a)
+    comp = [e for e in F.effects(mk, lambda e: has(e.heads(),
+                                                   'rule.compiler'),
+                                 depth=0)
+            if any(k.arg is None for k in e.call.keywords) or
+            Q.kwarg(e.call, 'deps') is not None]
+    ok = ok and bool(comp)
+    ctx.ob(R, 'make_compile|deps-kwarg', ok, mk.node,
+           'make does not pass a depfile name to the compiler (under the '
+           'gcc deps flavor)')
+    deps_atoms = set()
+    for n, v in a:
+        deps_atoms |= v
+        suffixes |= {('make-kwarg', x) for x in _suffixes(v)}
     # (2) depfixer appended to the recipe
-    rx_ = [n for n in ast.walk(mk.node) if isinstance(n, ast.Assign) and
-           unparse(n.targets[0]) == 'recipe_extra' and 'depfixer(deps)' in
-           unparse(n.value)]
-    ok = len(rx_) == 1 and _under_gcc_flavor(rx_[0])
-    defs = [c for c in Q.calls(mk.node) if unparse(c.func) ==
-            'buildfile.define']
-    ok = ok and len(defs) == 1 and 'recipe_extra' in unparse(defs[0])
+    fix = [e for e in F.effects(mk, lambda e: e.callee_is("tool('depfixer')"),
+                                depth=0)]
+    ok = bool(fix) and all(_gcc(F, e.call, mk) for e in fix) and all(
+        all(has(F.atoms(t, mk), 'deps_flavor') or
+            has_call(F.atoms(t, mk), 'has_variable')
+            for t in F.guards(e.call, mk)) for e in fix)
+    defs = F.calls_to(mk, 'define', depth=0)
+    ok = ok and bool(defs) and any(
+        any("tool('depfixer')(" in x for x in e.all_args()) and
+        has(e.all_args(), 'rule.compiler') for e in defs)
     ctx.ob(R, 'make_compile|depfixer-in-recipe', ok, mk.node,
            'the depfile is not post-processed by the depfixer in the '
            'compile recipe')
-    # same variable used for -MF and depfixer
-    if a and rx_:
-        tg = [unparse(t_) for t_ in a[0].targets]
-        ctx.ob(R, 'make_compile|depfixer-on-same-file', 'deps' in tg, a[0],
+    if a and fix:
+        same = all(direct(deps_atoms) <= direct(e.arg(0)) for e in fix)
+        ctx.ob(R, 'make_compile|depfixer-on-same-file', same, mk.node,
                'depfixer processes a different file than the compiler '
                'writes')
     # (3) include optional, (4) add_target
-    inc = [c for c in Q.calls(mk.node) if unparse(c.func) ==
-           'buildfile.include']
-    ok = len(inc) == 1 and _under_gcc_flavor(inc[0]) and unparse(
-        Q.kwarg(inc[0], 'optional') or ast.Constant(False)) == 'True' and \
-        unparse(inc[0].args[0]) == 'depfile'
+    inc = F.calls_to(mk, 'include', depth=0)
+    ok = bool(inc) and all(
+        _gcc(F, e.call, mk) and e.kw_const('optional') is True and
+        has(e.arg(0), 'rule.output[0]', 'path', 'addext()') for e in inc)
     ctx.ob(R, 'make_compile|include-optional', ok, mk.node,
-           'the per-object depfile is not included with optional=True (a '
-           'missing depfile must not stop the build)')
-    at = [c for c in Q.calls(mk.node) if unparse(c.func) ==
-          'build_inputs.add_target']
-    ok = len(at) == 1 and _under_gcc_flavor(at[0]) and 'depfile' in unparse(
-        at[0])
+           'the per-object depfile (next to the first output) is not '
+           'included with optional=True (a missing depfile must not stop '
+           'the build)')
+    for e in inc:
+        suffixes |= {('make-include', x) for x in _suffixes(e.arg(0))}
+    at = F.calls_to(mk, 'add_target', depth=0)
+    ok = bool(at) and bool(inc) and all(
+        _gcc(F, e.call, mk) and
+        {x for x in e.arg(0) if 'addext(' in x} and
+        {x.replace('via:', '') for x in e.arg(0) if 'addext(' in x} ==
+        {x for i_ in inc for x in i_.arg(0) if 'addext(' in x}
+        for e in at)
     ctx.ob(R, 'make_compile|depfile-is-clean-target', ok, mk.node,
            'the depfile is not registered as a target (clean would leave '
            'it behind)')
-    df = [n for n in ast.walk(mk.node) if isinstance(n, ast.Assign) and
-          unparse(n.targets[0]) == 'depfile']
-    if df:
-        for c in ast.walk(df[0].value):
-            if isinstance(c, ast.Constant) and isinstance(c.value, str):
-                suffixes.add(('make-include', c.value))
-        ok = 'rule.output[0].path.addext(' in unparse(df[0].value)
-        ctx.ob(R, 'make_compile|depfile-next-to-first-output', ok, df[0],
-               'depfile name is not derived from the first output')
-    # the include operand is written as a Make target name (escaped spaces,
-    # '#', ...): reuse the emission-site analysis of C04
-    from ..rules import escape as E
-    table, members = E.escape_table(repo, E.MAKE_SYN)
-    sites = E.emission_sites(ctx, [E.MAKE_SYN + ':Makefile.write'],
-                             E.MAKE_SYN, members, E.classify_make)
-    inc_sites = [s_ for s_ in sites if 'i.name' in unparse(s_[1].node)]
-    ok = len(inc_sites) == 1 and inc_sites[0][1].syntaxes == {'target'}
-    ctx.ob(R, 'Makefile.write|include-operand-is-a-target-name', ok, None,
+    # the include operand is written as a Make target name
+    w = F.fn('bfg9000.backends.make.syntax:Makefile.write')
+    ws = [e for e in F.effects(w, lambda e: e.name == 'write', depth=1)
+          if has(e.arg(0), '_includes', 'name')]
+    ok = bool(ws) and all(has(e.arg(1, kw='syntax'), 'Syntax', 'target')
+                          for e in ws)
+    ctx.ob(R, 'Makefile.write|include-operand-is-a-target-name', ok, w.node,
            'the depfile named by -include is not written with '
            'Syntax.target: a path with a space or # names a different file '
            'and the optional include is silently skipped')
-    # Makefile.include writes -include for optional
-    w = repo.method('bfg9000.backends.make.syntax:Makefile', 'write')
-    ok = "('-' if i.optional else '') + 'include '" in unparse(w.node)
+    dash = F.consts(w, lambda v: v in ('-', '-include ', '-include'))
+    lits = [e for e in F.effects(w, lambda e: e.name == 'write_literal',
+                                 depth=1)
+            if any('include' in x for x in e.arg(0)
+                   if x.startswith('const:'))]
+    ok = bool(dash) and all(has(F.control(n, w), '_includes', 'optional')
+                            for n in dash) and bool(lits) and all(
+        has_const(e.arg(0), '-') or has_const(e.arg(0), '-include ')
+        for e in lits)
     ctx.ob(R, 'Makefile.write|-include', ok, w.node,
            'optional includes are not written as -include')
     # ninja
-    nj = repo.func(CP + 'ninja_compile')
-    a2 = [n for n in ast.walk(nj.node) if isinstance(n, ast.Assign) and any(
-        unparse(t_) == "cmd_kwargs['deps']" for t_ in n.targets) and
-        _under_gcc_flavor(n)]
-    ok = len(a2) == 1 and 'depfile' in [unparse(t_) for t_ in a2[0].targets]
+    nj = F.fn(CP + 'ninja_compile')
+    a2 = [(n, v) for n, v in _item_stores(F, nj, 'deps') if _gcc(F, n, nj)]
+    rl = F.calls_to(nj, 'rule', depth=0)
+    depfile_kw = set()
+    for e in rl:
+        depfile_kw |= e.arg(kw='depfile')
+    ok = bool(a2) and bool(rl) and all(
+        {x for x in direct(v) if not x.startswith('const:None')} <=
+        direct(depfile_kw) and bool(direct(v)) for n, v in a2)
     ctx.ob(R, 'ninja_compile|deps-kwarg=depfile', ok, nj.node,
            'ninja rule depfile and the compiler -MF argument differ')
-    if a2:
-        for c in ast.walk(a2[0].value):
-            if isinstance(c, ast.Constant) and isinstance(c.value, str):
-                suffixes.add(('ninja', c.value))
-    d2 = [n for n in ast.walk(nj.node) if isinstance(n, ast.Assign) and
-          unparse(n.targets[0]) == 'deps' and unparse(n.value) == "'gcc'" and
-          _under_gcc_flavor(n)]
-    ctx.ob(R, 'ninja_compile|deps=gcc', len(d2) == 1, nj.node,
-           'ninja rule does not set deps = gcc')
-    rl = [c for c in Q.calls(nj.node) if unparse(c.func) == 'buildfile.rule']
-    ok = len(rl) == 1 and unparse(Q.kwarg(rl[0], 'depfile')) == 'depfile' \
-        and unparse(Q.kwarg(rl[0], 'deps')) == 'deps'
+    for n, v in a2:
+        suffixes |= {('ninja', x) for x in _suffixes(v)}
+    ok = bool(rl) and all(has_const(e.arg(kw='deps'), 'gcc') and
+                          has_const(e.arg(kw='deps'), None) for e in rl)
+    gcc_sets = [n for n in walk_no_nested(nj.node)
+                if isinstance(n, ast.Assign) and isinstance(
+                    n.value, ast.Constant) and n.value.value == 'gcc']
+    ok = ok and bool(gcc_sets) and all(_gcc(F, n, nj) for n in gcc_sets)
+    ctx.ob(R, 'ninja_compile|deps=gcc', ok, nj.node,
+           'ninja rule does not set deps = gcc (under the gcc flavor only)')
+    ok = bool(rl) and all(Q.kwarg(e.call, 'depfile') is not None and
+                          Q.kwarg(e.call, 'deps') is not None for e in rl)
     ctx.ob(R, 'ninja_compile|rule-gets-depfile+deps', ok, nj.node,
            'the ninja rule does not receive depfile/deps')
-    cd = repo.func(CP + 'compdb_compile')
-    for n in ast.walk(cd.node):
-        if isinstance(n, ast.Assign) and any(
-                unparse(t_) == "cmd_kwargs['deps']" for t_ in n.targets) \
-                and _under_gcc_flavor(n):
-            for c in ast.walk(n.value):
-                if isinstance(c, ast.Constant) and isinstance(c.value, str) \
-                        and c.value.startswith('.'):
-                    suffixes.add(('compdb', c.value))
-    vals = {v for k, v in suffixes if v.startswith('.')}
+    cd = F.fn(CP + 'compdb_compile')
+    for n, v in _item_stores(F, cd, 'deps'):
+        if _gcc(F, n, cd):
+            suffixes |= {('compdb', x) for x in _suffixes(v)}
+    vals = {v for k, v in suffixes}
     ctx.ob(R, 'depfile-suffix-agreement', len(vals) == 1 and len(
-        suffixes) >= 4, mk.node, 'depfile suffix differs between sites: {}'
-        .format(sorted(suffixes)))
+        {k for k, v in suffixes}) >= 4, mk.node,
+        'depfile suffix differs between sites: {}'.format(sorted(suffixes)))
+    # stamp files of multi-output rules are cleaned unless the caller opts
+    # out
+    mt = F.fn('bfg9000.backends.make.writer:multitarget_rule')
+    d = Q.param_default(mt.node, 'clean_stamp')
+    ats = F.calls_to(mt, 'add_target', depth=1)
+    ok = isinstance(d, ast.Constant) and d.value is True and bool(ats) and \
+        all(param_of(e.control(), 'clean_stamp') for e in ats)
+    ctx.ob(R, 'multitarget_rule|stamp-is-clean-target-by-default', ok,
+           mt.node, 'the stamp file of a multi-output rule is not '
+           'registered for clean by default')
     # depfixer tool: reads the file and appends to it
-    dx = repo.method('bfg9000.tools.internal:Depfixer', '_call')
-    ok = "cmd + [shell_literal('<'), depfile, shell_literal('>>'), depfile]" \
-        in unparse(dx.node)
+    dx = F.fn('bfg9000.tools.internal:Depfixer._call')
+    seq = None
+    for r in F.flow._returns(dx):
+        x = r
+        while isinstance(x, ast.Call) and len(x.args) == 1 and not \
+                isinstance(x.func, ast.Attribute):
+            x = x.args[0]          # shell_list(...)
+        seq = F.flow.sequence(x, dx)
+    ok = False
+    if seq:
+        el = [F.atoms(e_, f_, b_) for e_, f_, b_ in seq]
+        for i in range(len(el) - 3):
+            if has_const(el[i], '<') and param_of(el[i + 1], 'depfile') \
+                    and has_const(el[i + 2], '>>') and \
+                    param_of(el[i + 3], 'depfile'):
+                ok = True
     ctx.ob(R, 'Depfixer._call|reads-and-appends-same-file', ok, dx.node,
            'depfixer does not append its output to the depfile it read')
     # clean
-    cl = repo.func('bfg9000.builtins.clean:make_clean_rule')
-    ok = 'rm((i.path for i in build_inputs.targets()))' in unparse(
-        cl.node)
+    cl = F.fn('bfg9000.builtins.clean:make_clean_rule')
+    rms = [e for e in F.effects(cl, lambda e: e.callee_is("tool('rm')"),
+                                depth=1)]
+    ok = bool(rms) and all(has(e.all_args(), 'targets()', 'path') and
+                           not has_call(e.all_args(), 'if') for e in rms)
+    rules = [e for e in F.calls_to(cl, 'rule', depth=0)
+             if e.kw_const('target') == 'clean']
+    ok = ok and bool(rules) and all(
+        any("tool('rm')(" in x for x in e.arg(kw='recipe')) for e in rules)
     ctx.ob(R, 'make_clean_rule|removes-all-targets', ok, cl.node,
            'clean does not remove every registered target')
-    tg = repo.method('bfg9000.build_inputs:BuildInputs', 'targets')
-    t = unparse(Q.returns(tg.node)[0].value)
-    ok = 'i.output for i in self._edges' in t and \
-        'self._extra_targets' in t
+    tg = F.fn('bfg9000.build_inputs:BuildInputs.targets')
+    r = F.returns(tg)
+    ok = has(r, 'self._edges', 'output') and has(r, 'self._extra_targets')
     ctx.ob(R, 'BuildInputs.targets|outputs+extra', ok, tg.node,
-           'targets() is {}'.format(t))
-    at = repo.method('bfg9000.build_inputs:BuildInputs', 'add_target')
-    ok = 'self._extra_targets.append(target)' in unparse(at.node)
-    ctx.ob(R, 'BuildInputs.add_target|appends', ok, at.node, '')
+           'targets() is not the outputs of every edge plus the extra '
+           'targets')
+    at = F.fn('bfg9000.build_inputs:BuildInputs.add_target')
+    ok = any(has(e.recv(), 'self._extra_targets') and param_of(
+        e.all_args(), 'target')
+        for e in F.effects(at, lambda e: e.name in ('append', 'add'),
+                           depth=0))
+    ctx.ob(R, 'BuildInputs.add_target|appends', ok, at.node,
+           'add_target does not record the target')
 
 
 def depfix_table(ctx):
     R = 'DEPFIX-TABLE'
-    ctx.rule(R, 'the depfixer state machine, evaluated symbolically for '
-             'every (state, token) pair: every dependency name is echoed and '
-             'terminated by ":\\n" (so every dependency is also a target), '
-             'no target name is echoed, truncated input is rejected')
+    ctx.rule(R, 'the depfixer state machine, interpreted abstractly for '
+             'every (state, token) pair (through helpers): every dependency '
+             'name is echoed and terminated by ":\\n" (so every dependency '
+             'is also a target), no target name is echoed, truncated input '
+             'is rejected')
     repo = ctx.repo
-    f = repo.func('bfg9000.depfixer:emit_deps')
+    F = _facts(ctx)
+    from ..absint import Interp, Undecided
+    f = F.fn('bfg9000.depfixer:emit_deps')
     m = f.module
     states = enum_members(repo, m, 'State')
     toks = enum_members(repo, m, 'Token')
-    loops = [n for n in walk_no_nested(f.node) if isinstance(n, ast.For)]
+    loops = [n for n in walk_no_nested(f.node) if isinstance(n, ast.For)
+             and has_call(F.atoms(n.iter, f), 'tokenize')]
     Q.require(len(loops) == 1, 'emit_deps: token loop not found')
+    loop = loops[0]
+    tgt = loop.target
+    Q.require(isinstance(tgt, ast.Tuple) and len(tgt.elts) == 2 and all(
+        isinstance(x, ast.Name) for x in tgt.elts),
+        'emit_deps: (token, value) loop target expected')
+    tokvar, valvar = tgt.elts[0].id, tgt.elts[1].id
+    # the state variable: the local compared with State members after the
+    # loop / assigned a State member before it
+    statevar = None
+    for n in f.node.body:
+        if isinstance(n, ast.Assign) and isinstance(
+                n.targets[0], ast.Name) and isinstance(
+                    const_eval(repo, m, n.value), EnumMember):
+            statevar = n.targets[0].id
+    Q.require(statevar is not None, 'emit_deps: state variable not found')
+    init = const_eval(repo, m, [n for n in f.node.body if isinstance(
+        n, ast.Assign) and isinstance(n.targets[0], ast.Name) and
+        n.targets[0].id == statevar][0].value)
+    ctx.ob(R, 'initial-state', isinstance(init, EnumMember) and
+           init.name == 'target', f.node, 'parsing does not start left of '
+           'the colon')
+    it = Interp(repo, F.flow)
     table = {}
-
-    def run(body, env):
-        acts = []
-        for st in body:
-            if isinstance(st, ast.If):
-                t = fold_test(repo, m, st.test, None, env)
-                if t is None:
-                    raise AnalysisError('emit_deps: cannot fold ' +
-                                        unparse(st.test))
-                acts += run(st.body if t else st.orelse, env)
-            elif isinstance(st, ast.Assign) and unparse(
-                    st.targets[0]) == 'state':
-                v = const_eval(repo, m, st.value)
-                acts.append(('state', v.name if isinstance(
-                    v, EnumMember) else '?'))
-            elif isinstance(st, ast.Expr) and isinstance(
-                    st.value, ast.Call) and Q.callee_attr(
-                        st.value) == 'write':
-                a = st.value.args[0]
-                v = const_eval(repo, m, a)
-                acts.append(('write', v if isinstance(v, str)
-                             else unparse(a)))
-            elif isinstance(st, ast.Raise):
-                acts.append(('raise',))
-            elif isinstance(st, ast.Pass):
-                pass
-            else:
-                raise AnalysisError('emit_deps: unsupported statement ' +
-                                    type(st).__name__)
-        return acts
-
     for s in states:
         for t in toks:
-            env = {'state': EnumMember(m.name + ':State', s),
-                   'tok': EnumMember(m.name + ':Token', t)}
-            table[(s, t)] = run(loops[0].body, env)
+            env = {statevar: EnumMember(m.name + ':State', s),
+                   tokvar: EnumMember(m.name + ':Token', t)}
+            try:
+                acts, out, env2 = it.run_block(f, loop.body, env)
+            except Undecided as e:
+                raise AnalysisError('emit_deps: {}'.format(e))
+            nxt = env2.get(statevar)
+            table[(s, t)] = (acts, out, nxt.name if isinstance(
+                nxt, EnumMember) else '?')
     ctx.stat('depfixer_transitions', {
-        '{}/{}'.format(s, t): [list(a) for a in acts]
-        for (s, t), acts in sorted(table.items())})
+        '{}/{}'.format(s, t): [[str(x) for x in a] for a in acts] + [nxt]
+        for (s, t), (acts, out, nxt) in sorted(table.items())})
     Q.require('dep' in states and 'target' in states, 'State members')
-    for (s, t), acts in sorted(table.items()):
+    for (s, t), (acts, out, nxt) in sorted(table.items()):
         writes = [a[1] for a in acts if a[0] == 'write']
-        new = [a[1] for a in acts if a[0] == 'state']
-        raises = any(a[0] == 'raise' for a in acts)
-        nxt = new[-1] if new else s
+        raises = out[0] == 'raise'
         if s == 'dep' and nxt != 'dep' and not raises:
             ctx.ob(R, '{}/{}|dep-terminated'.format(s, t),
                    writes == [':\n'], f.node,
@@ -271,34 +360,86 @@ def depfix_table(ctx):
                        t, writes))
         if t == 'char' and nxt == 'dep' and not raises:
             ctx.ob(R, '{}/{}|dep-name-echoed'.format(s, t),
-                   writes == ['value'], f.node,
+                   writes == [valvar], f.node,
                    'a character of a dependency name is not echoed')
         if s in ('target', 'between_targets') and nxt != 'dep':
             ctx.ob(R, '{}/{}|targets-not-echoed'.format(s, t), not writes,
                    f.node, 'text of the original target is echoed')
         if s in ('target', 'between_targets') and t == 'char':
             ctx.ob(R, '{}/{}|stays-left-of-colon'.format(s, t),
-                   nxt == 'target', f.node, '')
+                   nxt == 'target' and not raises, f.node,
+                   'a target character does not keep the parser left of '
+                   'the colon')
         if t == 'colon' and s in ('target', 'between_targets'):
             ctx.ob(R, '{}/{}|colon-starts-deps'.format(s, t),
-                   nxt == 'between_deps', f.node,
+                   nxt == 'between_deps' and not raises, f.node,
                    'the colon does not start the dependency list')
         if t == 'colon' and s in ('dep', 'between_deps'):
             ctx.ob(R, '{}/{}|second-colon-rejected'.format(s, t), raises,
                    f.node, 'a second unescaped colon is accepted')
-    # end of file
-    tail = [n for n in f.node.body if isinstance(n, ast.If) and
-            'state != State.target' in unparse(n.test) and any(
-                isinstance(x, ast.Raise) for x in n.body)]
-    ctx.ob(R, 'eof|truncated-input-rejected', len(tail) == 1, f.node,
+    # the tokenizer sees the whole input (tokens are not cut at block
+    # boundaries)
+    tks = F.calls_to(f, 'tokenize', depth=2)
+    ok = bool(tks) and all(any(
+        re.search(r'(^|\.)read\(\)$', a) for a in direct(e.arg(0)))
+        for e in tks)
+    ctx.ob(R, 'emit_deps|tokenizes-whole-input', ok, f.node,
+           'the depfile is tokenized in pieces: an escape sequence or '
+           '"colon + whitespace" split across two pieces is misread')
+    # end of file: every state but `target` is rejected
+    ok = True
+    after = f.node.body[f.node.body.index(loop) + 1:] if loop in \
+        f.node.body else []
+    for s in states:
+        env = {statevar: EnumMember(m.name + ':State', s)}
+        try:
+            acts, out, env2 = it.run_block(f, after, env)
+        except Undecided:
+            ok = False
+            break
+        if (out[0] == 'raise') != (s != 'target'):
+            ok = False
+    ctx.ob(R, 'eof|truncated-input-rejected', ok, f.node,
            'a truncated depfile is accepted silently')
     # tokenizer: escaped newline swallowed, backslash kept with next char
-    tk = repo.func('bfg9000.depfixer:tokenize')
-    t = unparse(tk.node)
-    ok = "if c != '\\n':" in t and "yield (Token.char, '\\\\')" in t
+    tk = F.fn('bfg9000.depfixer:tokenize')
+    ys = [n for n in ast.walk(tk.node) if isinstance(n, ast.Yield) and
+          n.value is not None and has_const(F.atoms(n.value, tk), '\\')]
+    ok = bool(ys) and all(any(
+        op == 'NotEq' and (has_const(l, '\n') or has_const(r, '\n'))
+        for op, l, r in F.guard_compares(y, tk)) for y in ys)
     ctx.ob(R, 'tokenize|escapes', ok, tk.node,
            'backslash escapes are not passed through / continuation lines '
            'not swallowed')
+    # after a backslash the next character is an ordinary character: no
+    # path from the backslash token to a space/newline/colon token without
+    # passing the `char` token of the escaped character (or the loop head)
+    g = F.cfg(tk)
+    allys = [n for n in ast.walk(tk.node) if isinstance(n, ast.Yield) and
+             n.value is not None]
+
+    def tokname(y):
+        a = F.atoms(y.value, tk)
+        return {x.split('.')[1] for x in a if x.startswith('Token.')}
+    esc_char = [y for y in allys if tokname(y) == {'char'} and isinstance(
+        y.value, ast.Tuple) and len(y.value.elts) == 2 and not isinstance(
+            y.value.elts[1], ast.Constant)]
+    others = [y for y in allys if tokname(y) & {'space', 'newline',
+                                                 'colon'}]
+    heads = [n for n in walk_no_nested(tk.node) if isinstance(
+        n, (ast.While, ast.For))]
+    ok = bool(ys) and bool(esc_char) and bool(others)
+    for b in ys:
+        for o in others:
+            try:
+                if g.reaches(g.stmt_of(b), g.stmt_of(o), avoiding=[
+                        g.stmt_of(y) for y in esc_char] + heads):
+                    ok = False
+            except Exception:
+                ok = False
+    ctx.ob(R, 'tokenize|escaped-character-is-a-char', ok, tk.node,
+           'the character after a backslash can be tokenized as a '
+           'separator: an escaped space splits a file name')
 
 
 def check(ctx):
